@@ -152,7 +152,7 @@ def gen_cases(rng, tier):
             else:
                 x = _qty.amount(rng)
             mode = rng.choice(["ROUND_HALF_EVEN", "ROUND_DOWN", "ROUND_CEILING", "ROUND_HALF_UP"])
-            ops.append(["q_mk", rng.choice(["-", ctx.units[u]["cls"]]), _qty.kind_tok(rng, x), u, mode])
+            ops.append(["q_mk", rng.choice(["-", ctx.units[u]["cls"]]), _qty.kind_tok(rng, x, ctor=True), u, mode])
             if ctx.quantum(u) is not None:
                 text = render_dec(*_dec_pair(x)) if _dec_pair(x) else f"{x.numerator}/{x.denominator}"
                 ops.append(["q_parse", rng.choice(["-", ctx.units[u]["cls"]]), f"{text} {u}", "-", mode])
